@@ -411,7 +411,13 @@ def main_check(mod, argv):
         m = re.search(r"\* Axioms:(.*?)\n\s*\n\s*\*", out, re.S)
         axl = [a.strip() for a in (m.group(1).strip().splitlines() if m else []) if a.strip() and a.strip() != "<none>"]
         coqchk_info = {"rc": rc, "axioms": axl, "wall_s": round(dt, 1)}
-        if rc != 0:
+        if rc == 124 and out.rstrip().endswith("TIMEOUT"):
+            # the independent re-checker did not finish within the hour (it needs 10-25 minutes on an idle machine; seen once,
+            # with the machine at load 80-100): no verdict from coqchk.  The kernel check (coqc, above) stands; recorded in
+            # the evidence, not reported as a broken proof
+            coqchk_info["timed_out"] = True
+            notes.append("coqchk did not finish within 3600 s (no verdict from the re-checker; coqc's check stands)")
+        elif rc != 0:
             proof_broken.append("coqchk failed: " + "\n".join(out.strip().splitlines()[-8:]))
         else:
             badax = [a for a in axl if a.split(".")[-1] not in ALLOWED_AXIOMS]
